@@ -516,6 +516,57 @@ func runC15(c *core.Ctx) {
 	c15Metadata(c)
 	c.Group("metadata-shapes")
 	c15Shapes(c)
+	c.Group("metadata-endpoint-location-forms")
+	c15LocationForms(c)
+}
+
+// c15LocationForms: lexical forms of valid http(s) URLs (everything the scheme check admits) in every endpoint position: one
+// marshal/unmarshal generation must preserve each of them verbatim.
+func c15LocationForms(c *core.Ctx) {
+	forms := []string{
+		"https://h.example.com/acs", "HTTPS://h.example.com/acs", "Http://h.example.com/acs", "https://H.EXAMPLE.com/Path", "https://h.example.com",
+		"https://h.example.com/Z\u00fcrich/", "https://h.example.com/a b", "https://h.example.com/a{b}^|c", "https://h.example.com/acs#", "https://h.example.com/acs?",
+		"https://h.example.com/acs#frag", "https://h.example.com/%7euser/%2f/x", "https://h.example.com/%7Euser/%2F/x", "https://user:pw@h.example.com:8443/x", "https://[::1]:8443/x",
+		"https://h.example.com/a?b=c d&e=\u00e9", "https://h.example.com//double//slash/../dot/./x", "https://h.example.com/a;p=1?q=%zz", "https://h.example.com:443/", "http://h.example.com:80",
+		"https://h.example.com/\u65e5\u672c", "https://h.example.com/a+b%20c", "https://xn--mnchen-3ya.example/", "https://m\u00fcnchen.example/", "https://h.example.com/a'b\"c<d>&e",
+	}
+	role := saml.RoleDescriptor{ProtocolSupportEnumeration: "urn:oasis:names:tc:SAML:2.0:protocol"}
+	positions := []string{"acs-location", "acs-response-location", "sp-slo-location", "sp-slo-response-location", "idp-sso-location", "idp-slo-response-location", "artifact-resolution", "attribute-service"}
+	for fi, f := range forms {
+		for _, pos := range positions {
+			for _, binding := range []string{saml.HTTPPostBinding, saml.HTTPRedirectBinding, saml.HTTPArtifactBinding, saml.SOAPBinding} {
+				f, pos, binding, fi := f, pos, binding, fi
+				c.Case(fmt.Sprintf("locform/%s/%s/form#%d=%+q", pos, binding[strings.LastIndex(binding, ":")+1:], fi, f), func(t *core.T) {
+					t.NonTrivial()
+					ok := "https://ok.example.com/x"
+					ed := &saml.EntityDescriptor{EntityID: "https://loc.example.com/"}
+					sp := saml.SPSSODescriptor{SSODescriptor: saml.SSODescriptor{RoleDescriptor: role}, AssertionConsumerServices: []saml.IndexedEndpoint{{Binding: saml.HTTPPostBinding, Location: ok, Index: 1}}}
+					idp := saml.IDPSSODescriptor{SSODescriptor: saml.SSODescriptor{RoleDescriptor: role}, SingleSignOnServices: []saml.Endpoint{{Binding: saml.HTTPRedirectBinding, Location: ok}}}
+					switch pos {
+					case "acs-location":
+						sp.AssertionConsumerServices = append(sp.AssertionConsumerServices, saml.IndexedEndpoint{Binding: binding, Location: f, Index: 2})
+					case "acs-response-location":
+						sp.AssertionConsumerServices = append(sp.AssertionConsumerServices, saml.IndexedEndpoint{Binding: binding, Location: ok, ResponseLocation: samlgen.S(f), Index: 2})
+					case "sp-slo-location":
+						sp.SingleLogoutServices = []saml.Endpoint{{Binding: binding, Location: f}}
+					case "sp-slo-response-location":
+						sp.SingleLogoutServices = []saml.Endpoint{{Binding: binding, Location: ok, ResponseLocation: f}}
+					case "idp-sso-location":
+						idp.SingleSignOnServices = append(idp.SingleSignOnServices, saml.Endpoint{Binding: binding, Location: f})
+					case "idp-slo-response-location":
+						idp.SingleLogoutServices = []saml.Endpoint{{Binding: binding, Location: ok, ResponseLocation: f}}
+					case "artifact-resolution":
+						sp.ArtifactResolutionServices = []saml.IndexedEndpoint{{Binding: binding, Location: f, Index: 1}}
+					case "attribute-service":
+						ed.AttributeAuthorityDescriptors = []saml.AttributeAuthorityDescriptor{{RoleDescriptor: role, AttributeServices: []saml.Endpoint{{Binding: binding, Location: f}}}}
+					}
+					ed.SPSSODescriptors = []saml.SPSSODescriptor{sp}
+					ed.IDPSSODescriptors = []saml.IDPSSODescriptor{idp}
+					checkED(t, ed, false)
+				})
+			}
+		}
+	}
 }
 
 // reparse = one marshal/unmarshal generation.
